@@ -26,3 +26,168 @@ def cases(tier):
 
 def run_case(case):
     return gp_run.run_case(case, "C02")
+
+
+# ------------------------------------------------------------------ dangling interactions in monomer .itp files
+import itertools as _it, json as _json
+from .. import ffmodel as _F, gp_harness as _H, ref_genparams as _R
+from ..runner import crash_violation as _crash
+from ..enum_graphs import labelled_graphs as _labelled
+
+# block A has 2 atoms (BB=1, SA=2): index 3 = +BB, 4 = +SA, 5 = ++BB, 7 = +++BB
+DANGLING = {
+    "bond": ("bonds", (1, 3), ("1", "0.40", "500")),
+    "sidebond": ("bonds", (2, 3), ("1", "0.36", "360")),
+    "angle": ("angles", (1, 3, 5), ("2", "130", "40")),
+    "dihedral": ("dihedrals", (1, 3, 5, 7), ("1", "60", "3", "2")),
+    "pair-skip": ("pairs", (1, 5), ("1",)),
+    "excl-next": ("exclusions", (2, 3), ()),
+}
+
+
+def _dangling_cases(tier):
+    names = list(DANGLING)
+    sets = [[n] for n in names] + [list(c) for c in _it.combinations(names, 2)]
+    for ds in sets:
+        yield dict(kind="dangling-linear", dangling=ds, tier=tier)
+    for ds in [[n] for n in ("bond", "sidebond", "angle", "dihedral")] + [["bond", "angle"], ["bond", "dihedral"]]:
+        for n in (2, 3, 4):
+            yield dict(kind="dangling-graph", dangling=ds, n=n, tier=tier)
+
+
+def _itp_text(ds):
+    dang = {}
+    for d in ds:
+        sec, atoms, params = DANGLING[d]
+        dang.setdefault(sec, []).append((atoms, params, {}))
+    return _F.render_block_itp("A", _F.BLOCKS["A"], dangling=dang) + _F.render_block_itp("C", _F.BLOCKS["C"]) + _F.render_block_itp("B", _F.BLOCKS["B"])
+
+
+def _observed(ff_text, rg):
+    mm, missing = _H.run_processors(_H.parse_ff([("itp", ff_text)]), _H.build_resgraph(rg))
+    dg = _H.mol_digest(mm.molecule)
+    pos = {a["key"]: i for i, a in enumerate(dg["atoms"])}
+    inter = sorted((sec, tuple(pos[x] for x in at), tuple(p)) for sec, lst in dg["inter"].items() for at, p, m in lst)
+    return dg, inter
+
+
+def _block_inter(rg, offs):
+    out = []
+    for i, rn in enumerate(rg["resnames"]):
+        blk = _F.BLOCKS[rn]
+        names = [a[0] for a in blk["atoms"]]
+        for sec, lst in blk["inter"].items():
+            for at, params, meta in lst:
+                out.append((sec, tuple(offs[i] + names.index(a) for a in at), tuple(params)))
+    return out
+
+
+def _check_dangling_linear(case):
+    viols, evals, keys = [], 0, []
+    ds = case["dangling"]
+    text = _itp_text(ds)
+    for n in (1, 2, 3, 4, 5):
+        for rn in _it.product("AC", repeat=n):
+            if n == 5 and rn.count("C") > 1:
+                continue
+            for start in (1, 3):
+                rg = dict(n=n, edges=[[i, i + 1] for i in range(n - 1)], resids=[start + i for i in range(n)], resnames=list(rn))
+                evals += 1
+                case1 = dict(kind="dangling1", dangling=ds, rg=rg)
+                try:
+                    dg, got = _observed(text, rg)
+                except Exception as exc:  # noqa
+                    viols.append(_crash(exc, case1, assertion="pipeline-accepts-valid-input"))
+                    continue
+                offs, o = [], 0
+                for r in rn:
+                    offs.append(o)
+                    o += len(_F.BLOCKS[r]["atoms"])
+                want = _block_inter(rg, offs)
+                for d in ds:
+                    sec, atoms, params = DANGLING[d]
+                    orders = [(a - 1) // 2 for a in atoms]
+                    which = [(a - 1) % 2 for a in atoms]
+                    for i in range(n):
+                        if i + max(orders) >= n:
+                            continue           # the window does not fit inside the chain
+                        if any(rn[i + o_] != "A" for o_ in orders):
+                            continue           # every atom of the interaction is an atom of block A
+                        want.append((sec, tuple(offs[i + o_] + w for o_, w in zip(orders, which)), tuple(params)))
+                want = sorted(want)
+                if got != want and len(viols) < 20:
+                    lost = [x for x in want if x not in got][:3]
+                    extra = [x for x in got if x not in want][:3]
+                    tags = []
+                    for d in ds:
+                        orders = sorted({(a - 1) // 2 for a in DANGLING[d][1]})
+                        if orders != list(range(orders[0], orders[-1] + 1)) and any(x[0] == DANGLING[d][0] for x in lost):
+                            tags.append("dangling-interaction-skips-a-residue")
+                    viols.append(dict(assertion="dangling-present-for-every-window-absent-at-the-end", tags=tags,
+                                      message=f"dangling {ds} chain {''.join(rn)} start {start}: missing {lost} unexpected {extra}", case=case1, detail={}))
+                if n >= 2:
+                    keys.append(_json.dumps([ds, rn, start]))
+    return viols, evals, keys
+
+
+def _check_dangling_graph(case):
+    viols, evals, keys = [], 0, []
+    ds = case["dangling"]
+    text = _itp_text(ds)
+    a_attrs = {"BB": dict(atomname="BB", resname="A", atype="P1"), "SA": dict(atomname="SA", resname="A", atype="P2")}
+    links = []
+    for d in ds:
+        sec, atoms, params = DANGLING[d]
+        keys_ = ["+" * ((a - 1) // 2) + ("BB", "SA")[(a - 1) % 2] for a in atoms]
+        links.append(dict(resname=None, atoms={k: {kk: vv for kk, vv in a_attrs[k.lstrip("+")].items() if kk != "atomname"} for k in keys_},
+                          inter={sec: [_F.I(keys_, params)]}))
+    spec = dict(blocks={k: _F.BLOCKS[k] for k in "ABC"}, links=links, mods={})
+    n = case["n"]
+    for es, rank in _labelled(n):
+        for rn in _it.product("AC" if n >= 3 else "ABC", repeat=n):
+            rg = dict(n=n, edges=[list(e) for e in es], resids=[1 + r for r in rank], resnames=list(rn))
+            evals += 1
+            case1 = dict(kind="dangling-g1", dangling=ds, rg=rg)
+            try:
+                exp = _R.build(spec, rg)
+                dg, got = _observed(text, rg)
+            except _R.Unspecified:
+                continue
+            except Exception as exc:  # noqa
+                viols.append(_crash(exc, case1, assertion="pipeline-accepts-valid-input"))
+                continue
+            want = sorted((sec, at, params) for (sec, at, ver), (params, meta, origin) in exp["inter"].items())
+            if got != want and len(viols) < 20:
+                lost = [x for x in want if x not in got][:3]
+                extra = [x for x in got if x not in want][:3]
+                viols.append(dict(assertion="dangling-behaves-as-equivalent-link", tags=[],
+                                  message=f"dangling {ds} rg={_json.dumps(rg)}: missing {lost} unexpected {extra}", case=case1, detail={}))
+            keys.append(_json.dumps([ds, rg], sort_keys=True))
+    return viols, evals, keys
+
+
+_core_cases, _core_run = cases, run_case
+
+
+def cases(tier):          # noqa: F811
+    yield from _core_cases(tier)
+    yield from _dangling_cases(tier)
+
+
+def run_case(case):       # noqa: F811
+    kind = case.get("kind")
+    if kind in ("dangling-linear", "dangling1"):
+        if kind == "dangling1":
+            v, e, k = _check_dangling_linear(dict(kind="dangling-linear", dangling=case["dangling"], tier="quick"))
+            v = [x for x in v if x["case"]["rg"] == case["rg"]]
+            return dict(evals=1, keys=[], violations=v, stats={})
+        v, e, k = _check_dangling_linear(case)
+        return dict(evals=e, keys=k, violations=v, stats={"inputs_dangling_linear": e}, sample=dict(case))
+    if kind in ("dangling-graph", "dangling-g1"):
+        if kind == "dangling-g1":
+            v, e, k = _check_dangling_graph(dict(kind="dangling-graph", dangling=case["dangling"], n=case["rg"]["n"], tier="quick"))
+            v = [x for x in v if x["case"]["rg"] == case["rg"]]
+            return dict(evals=1, keys=[], violations=v, stats={})
+        v, e, k = _check_dangling_graph(case)
+        return dict(evals=e, keys=k, violations=v, stats={"inputs_dangling_graph": e}, sample=dict(case))
+    return _core_run(case)
